@@ -148,6 +148,17 @@ def call_value(fr, fv, args, kw, extra, n):
         return T.gamma(fv[1], a, b)
     if fv[0] == 'builtin':
         return builtin_value(fr, fv[1], args, kw, n)
+    if fv[0] == 'lambda' and fv[1] in fr.ctx.lambdas and not kw and not extra:
+        node, captured, mod_ = fr.ctx.lambdas[fv[1]]
+        names = [a.arg for a in node.args.args]
+        if len(names) == len(args):
+            saved_env, saved_mod = fr.env, fr.mod
+            fr.env = dict(captured, **dict(zip(names, args)))
+            fr.mod = mod_
+            try:
+                return fr.ex(node.body)           # a lambda is its body with the parameters bound
+            finally:
+                fr.env, fr.mod = saved_env, saved_mod
     fr.ctx.event('call', 'dynamic', [fv] + list(args), kw, guard=fr.guard(), loops=fr.loops, where=fr.where(n))
     return T.call('apply', [fv] + list(args), kw)
 
@@ -688,6 +699,10 @@ def external(fr, dotted, args, kw, extra, n):
         parts = list(args[0][1]) if dotted.endswith('from_iterable') and args[0][0] in ('list', 'tuple') else list(args) if dotted == 'itertools.chain' else None
         if parts is not None and all(T.strip_nd(p)[0] in ('list', 'tuple') for p in parts):
             return ('list', tuple(x for p in parts for x in T.strip_nd(p)[1]))
+    if dotted == 'operator.neg' and len(args) == 1:
+        return T.neg(args[0])
+    if dotted == 'operator.pos' and len(args) == 1:
+        return args[0]
     if dotted in ('operator.and_', 'operator.or_') and len(args) == 2:
         return T.band(args) if dotted.endswith('and_') else T.bor(args)
     if dotted == 'itertools.product':
